@@ -238,7 +238,7 @@ pub fn run_prop<P: Prop>(p: &P, o: &RunOpts) -> Value {
                 Ok(Err(f)) => Some(f.msg),
                 Err(pm) => {
                     let n = current_note();
-                    Some(format!("panic: {pm} during {}({}, {}, {})", n.op, n.a, n.b, n.c))
+                    Some(format!("{}panic: {pm} during {}({}, {}, {})", harness_prefix(&pm), n.op, n.a, n.b, n.c))
                 }
             };
             if let Some(m) = m {
@@ -270,7 +270,7 @@ pub fn run_prop<P: Prop>(p: &P, o: &RunOpts) -> Value {
                 Ok(Err(f)) => Some(f.msg),
                 Err(pm) => {
                     let n = current_note();
-                    Some(format!("panic: {pm} during {}({}, {}, {})", n.op, n.a, n.b, n.c))
+                    Some(format!("{}panic: {pm} during {}({}, {}, {})", harness_prefix(&pm), n.op, n.a, n.b, n.c))
                 }
             };
             if let Some(m) = m {
@@ -326,8 +326,8 @@ pub fn run_prop<P: Prop>(p: &P, o: &RunOpts) -> Value {
             Err(panic_msg) => {
                 let n = current_note();
                 Err(format!(
-                    "panic: {panic_msg} during {}({}, {}, {})",
-                    n.op, n.a, n.b, n.c
+                    "{}panic: {panic_msg} during {}({}, {}, {})",
+                    harness_prefix(&panic_msg), n.op, n.a, n.b, n.c
                 ))
             }
         };
@@ -378,7 +378,7 @@ pub fn run_prop<P: Prop>(p: &P, o: &RunOpts) -> Value {
                         Ok(Err(f)) => Some(f.msg),
                         Err(pm) => {
                             let n = current_note();
-                            Some(format!("panic: {pm} during {}({}, {}, {})", n.op, n.a, n.b, n.c))
+                            Some(format!("{}panic: {pm} during {}({}, {}, {})", harness_prefix(&pm), n.op, n.a, n.b, n.c))
                         }
                     };
                     if let Some(m) = m {
@@ -420,6 +420,16 @@ pub fn run_prop<P: Prop>(p: &P, o: &RunOpts) -> Value {
         "wall_s": t0.elapsed().as_secs_f64(),
     });
     out
+}
+
+/// A panic raised by the harness's own code (location relative to this crate: `src/...`) is a bug
+/// of the machinery, not a finding about qwt: it is reported as inconclusive, never as a violation.
+pub fn harness_prefix(panic_msg: &str) -> &'static str {
+    if panic_msg.contains(" @ src/") || panic_msg.contains(" @ fuzz/") {
+        "HARNESS-ERROR "
+    } else {
+        ""
+    }
 }
 
 /// Text of a replay file. The case is spliced in as text because `serde_json::Value` cannot
@@ -473,7 +483,7 @@ pub fn replay_prop<P: Prop>(p: &P, text: &str, build: &str, strict: bool) -> (bo
             let n = current_note();
             (
                 false,
-                format!("panic: {pm} during {}({}, {}, {})", n.op, n.a, n.b, n.c),
+                format!("{}panic: {pm} during {}({}, {}, {})", harness_prefix(&pm), n.op, n.a, n.b, n.c),
             )
         }
     }
